@@ -171,6 +171,13 @@ func findEndTime(moov *mp4.MoovBox, durationMS int) (endTime, endTimescale uint6
 		if !foundSyncFrame {
 			return 0, 0, fmt.Errorf("did not find any syncframe at or after time")
 		}
+	} else {
+		// No stss box: all samples are sync samples, so lastSampleNr is the first
+		// sync sample at or after endTime and the crop must end just before it.
+		lastSampleNr--
+	}
+	if lastSampleNr == 0 {
+		return 0, 0, fmt.Errorf("no sample before the first sync sample at or after %dms", durationMS)
 	}
 	lastTime, lastDur := stts.GetDecodeTime(lastSampleNr)
 	endTime = lastTime + uint64(lastDur)
